@@ -460,7 +460,9 @@ R_<TG_, TA_>::initialEnter() noexcept {
 			pendingTransitions.clear();
 		}
 		else {
+			// nothing the guards would have to judge, but the requests may have left marks the comparison does not cover
 			HFSM2_IF_TRANSITION_HISTORY(_core.transitionTargets = approvedTargets);
+			_core.registry.restore(backup);
 			_core.requests.clear();
 		}
 	}
@@ -577,7 +579,9 @@ R_<TG_, TA_>::processTransitions(TransitionSets& currentTransitions) noexcept {
 			pendingTransitions.clear();
 		}
 		else {
+			// nothing the guards would have to judge, but the requests may have left marks the comparison does not cover
 			HFSM2_IF_TRANSITION_HISTORY(_core.transitionTargets = approvedTargets);
+			_core.registry.restore(backup);
 			_core.requests.clear();
 		}
 	}
